@@ -275,3 +275,106 @@ class KeyEnum:
                                                   z3.And(z3.Select(cd0, self.keys(j)), self.kpos(self.keys(j)) == j))))
         ctx.facts.append(z3.ForAll([c], z3.Implies(z3.Select(cd0, c),
                                                   z3.And(self.kpos(c) >= 0, self.kpos(c) < self.n, self.keys(self.kpos(c)) == c))))
+
+
+# ------------------------------------------------------------------------------------ plain sequences (C15)
+class SeqList(Mutable):
+    """python list of ints (or ids) of symbolic length: (array, length)"""
+
+    def __init__(self, name, arr=None, n=None, elem_wrap=None):
+        self.name = name
+        self.arr = arr if arr is not None else z3.Const(name + '.arr', AII)
+        self.n = n if n is not None else z3.Int(name + '.len')
+        self.elem_wrap = elem_wrap or (lambda t: mk_int(t))
+        self.elem_term = None
+        self.writes = 0
+
+    def _loc_get(self, key):
+        return getattr(self, key)
+
+    def _loc_set_raw(self, key, val):
+        setattr(self, key, val)
+
+    def term_of(self, v):
+        if self.elem_term is not None:
+            return self.elem_term(v)
+        return zi(v)
+
+    def py_len(self, it):
+        return mk_int(self.n)
+
+    def py_truth(self, it):
+        return self.n > 0
+
+    def py_contains(self, it, x, node=None):
+        j = z3.Int(it.ctx.fresh('j'))
+        return z3.Exists([j], z3.And(j >= 0, j < self.n, z3.Select(self.arr, j) == self.term_of(x)))
+
+    def py_getitem(self, it, i, node=None):
+        t = zi(i)
+        it.raise_if(z3.Or(t >= self.n, t < -self.n), 'IndexError', 'list-index:' + self.name, node)
+        return self.elem_wrap(z3.Select(self.arr, z3.If(t >= 0, t, self.n + t)))
+
+    def py_getattr(self, it, name, node=None):
+        if name == 'insert':
+            def insert(it_, args, kw, n):
+                i = zi(args[0])
+                v = self.term_of(args[1])
+                # python clamps the index into [0, len]
+                p = z3.If(i < 0, z3.If(self.n + i < 0, 0, self.n + i), z3.If(i > self.n, self.n, i))
+                new = z3.Const(it.ctx.fresh(self.name + '.ins'), AII)
+                k = z3.Int(it.ctx.fresh('k'))
+                old = self.arr
+                it.ctx.facts.append(z3.ForAll([k], z3.Select(new, k) == z3.If(k < p, z3.Select(old, k),
+                                                                             z3.If(k == p, v, z3.Select(old, k - 1)))))
+                self._write('arr', new)
+                self._write('n', self.n + 1)
+                self._write('writes', self.writes + 1)
+            return Builtin('list.insert', insert)
+        if name == 'append':
+            def append(it_, args, kw, n):
+                self._write('arr', z3.Store(self.arr, self.n, self.term_of(args[0])))
+                self._write('n', self.n + 1)
+                self._write('writes', self.writes + 1)
+            return Builtin('list.append', append)
+        raise Unsupported('method %s of a sequence' % name)
+
+
+def sorted_strict(arr, n, tag='s'):
+    j, k = z3.Ints('%s!j %s!k' % (tag, tag))
+    return z3.ForAll([j, k], z3.Implies(z3.And(j >= 0, j < k, k < n), z3.Select(arr, j) < z3.Select(arr, k)))
+
+
+def sorted_weak(arr, n, tag='w'):
+    j, k = z3.Ints('%s!j %s!k' % (tag, tag))
+    return z3.ForAll([j, k], z3.Implies(z3.And(j >= 0, j < k, k < n), z3.Select(arr, j) <= z3.Select(arr, k)))
+
+
+def _bisect(it, lst, x, node, right):
+    """assumed contract of bisect.bisect_right / bisect_left: for a sorted list the result is the
+    insertion point (all elements before are <= x (< x), all elements from it on are > x (>= x))"""
+    if not isinstance(lst, SeqList):
+        if isinstance(lst, PList) and lst.is_concrete() and all(isinstance(v, int) for v in lst.values()) and isinstance(x, int):
+            import bisect
+            return (bisect.bisect_right if right else bisect.bisect_left)(lst.values(), x)
+        raise Unsupported('bisect on %s' % type(lst).__name__)
+    ctx = it.ctx
+    idx = z3.Int(ctx.fresh('bisect'))
+    xt = zi(x)
+    j = z3.Int(ctx.fresh('j'))
+    ctx.facts.append(z3.And(idx >= 0, idx <= lst.n))
+    before = z3.Select(lst.arr, j) <= xt if right else z3.Select(lst.arr, j) < xt
+    after = z3.Select(lst.arr, j) > xt if right else z3.Select(lst.arr, j) >= xt
+    ctx.facts.append(z3.Implies(sorted_weak(lst.arr, lst.n, ctx.fresh('sw')),
+                                z3.ForAll([j], z3.And(z3.Implies(z3.And(j >= 0, j < idx), before),
+                                                      z3.Implies(z3.And(j >= idx, j < lst.n), after)))))
+    ctx.notes.setdefault('bisect', []).append((lst, xt, idx))
+    return mk_int(idx)
+
+
+def bisect_right(it, lst, x, node=None):
+    return _bisect(it, lst, x, node, True)
+
+
+def bisect_left(it, lst, x, node=None):
+    return _bisect(it, lst, x, node, False)
